@@ -5,7 +5,9 @@
 //!   variant = tcp | tls | tlsauthz
 //!   ctor    = spawn | create      (Rust API only: spawn_*_server_task vs create_*_server_task; ffi ignores it)
 //!   filter  = any | exact=IP | set=IP+IP+.. | wc=PATTERN | emptyset | insrem=IP+IP.. (Rust API only: AnyOf(empty), AnyOf emptied again)
-//!   peer    = source IP the client socket is bound to before connecting to <bind_ip> (or to 127.0.0.1 when
+//!   peer    = @D : not a connection - ServerHandle::set_decode_level / rodbus_server_set_decode_level is called here (code D, or
+//!             E:<why>), 30 ms are given to the server task to process it; otherwise the
+//!             source IP the client socket is bound to before connecting to <bind_ip> (or to 127.0.0.1 when
 //!             the server is bound to a wildcard address)
 //! or:         reuse <variant+variant..> <bind_ip> <filter> <address added afterwards or -> <peers>   (one C-ABI filter object, several servers)
 //! or:         fseq <create string, hex> <add strings, hex, comma separated or -> <Rust API filter in the syntax above, or ERR> <peers>
@@ -375,7 +377,17 @@ fn scenario(env: &Env, line: &str) -> String {
     };
     let tls = variant != "tcp";
     let mut out = Vec::new();
+    let mut server = server;
     for peer in peers.split(',') {
+        if peer == "@D" {
+            let ok = match &mut server {
+                Server::Rust(h) => env.rt.block_on(h.set_decode_level(DecodeLevel::nothing())).is_ok(),
+                Server::Ffi(s, _) => unsafe { ffi::rodbus_server_set_decode_level(*s, decode_nothing()) == 0 },
+            };
+            std::thread::sleep(Duration::from_millis(30));
+            out.push(if ok { "D".to_string() } else { "E:set_decode_level".to_string() });
+            continue;
+        }
         let src: IpAddr = match peer.parse() {
             Ok(x) => x,
             Err(_) => {
